@@ -20,6 +20,8 @@ REQUIRED_THEOREMS = ['CfVerif.C13.' + t for t in (
     'fp16_exact', 'fp16_signed_arg', 'fp16_live_counterexample',
     'quat_roundtrip', 'quat_model_is_compressR', 'quat_fields_roundtrip', 'quat_errors',
     'coordinate_error_lt_one', 'yaw_error_lt_one', 'start_packs_or_raises', 'element_packs_or_raises',
+    'pack_idempotent', 'upload_idempotent', 'upload_is_concatenation', 'led_write_idempotent', 'led_writes_see_only_sets',
+    'timing_write_idempotent', 'timing_write_after_adds', 'incoming_memoryless', 'gen_objects',
     'led_rgb565', 'led_monotone', 'led_black_white', 'led_timing_rgb565', 'led_timing_monotone', 'led_timing_black_white',
     'range_report_decodes', 'range_report_distinct', 'range_report_last_wins', 'lh_angle_decodes', 'incoming_malformed',
     'gen_quat_compress', 'gen_quat_decompress', 'gen_trajectory', 'gen_units', 'gen_led', 'gen_incoming', 'gen_lh_angle')]
@@ -40,7 +42,9 @@ RULE = ('cases = ALL 65536 half patterns (+ signed readings, wider ints); quater
         'integer quaternions; words for decompression incl. every index x sign pattern and words >= 2^32; coordinates/angles across '
         'and beyond the int16 range incl. decimal inputs whose binary64 product rounds onto an integer; ALL 256x101 (level, intensity) '
         'pairs on every LED channel + wrapped / over-range values; range reports with 0..12 anchors incl. duplicate ids and truncated '
-        'packets; angle packets with special half/single patterns. distinct+non-trivial = distinct (operation, input)')
+        'packets; angle packets with special half/single patterns; HISTORIES on one object: pack() 2-5 times (incl. raising elements), the '
+        'same trajectory list uploaded 2-4 times to several memories/addresses, set/intensity/write histories on one LED ring, add/write '
+        'histories on one timing sequence, packet streams through one Localization object. distinct+non-trivial = distinct (operation, input)')
 
 # ======================================================================================================
 # A3: a deliberately small Python -> Lean translator for pure integer functions.
@@ -891,6 +895,166 @@ def canon_model_incoming(reply):
     return ' '.join(w)
 
 
+# ---- repeated use of one object ------------------------------------------------------------------------
+def _res(thunk):
+    """one result in the `r1;r2;...` notation of the history ops: hex bytes or E:<exception enum>"""
+    import struct
+    from harness.lib.common import exc_enum
+    try:
+        return bytes(thunk()).hex() or '-'
+    except struct.error as e:
+        return 'E:' + exc_enum(e)
+    except Exception as e:
+        return 'E:other' if type(e) is Exception else 'E:' + exc_enum(e)
+
+
+def make_elem(spec):
+    """spec: ('S', x, y, z, yaw) | ('G', duration, xs, ys, zs, yaws)  (floats; yaw in radians)"""
+    from cflib.crazyflie.mem.trajectory_memory import CompressedSegment, CompressedStart
+    if spec[0] == 'S':
+        return CompressedStart(*spec[1:])
+    return CompressedSegment(*spec[1:])
+
+
+def elem_txt(spec):
+    import math
+    if spec[0] == 'S':
+        return 'S|%s|%s|%s|%s' % (qtxt(spec[1]), qtxt(spec[2]), qtxt(spec[3]), qtxt(math.degrees(spec[4])))
+    return 'G|%s|%s|%s|%s|%s' % (qtxt(spec[1]), ','.join(qtxt(v) for v in spec[2]) or '-', ','.join(qtxt(v) for v in spec[3]) or '-',
+                                 ','.join(qtxt(v) for v in spec[4]) or '-', ','.join(qtxt(math.degrees(a)) for a in spec[5]) or '-')
+
+
+def real_packhist(spec, n):
+    """ONE object, n successive pack() calls"""
+    try:
+        e = make_elem(spec)
+    except Exception as ex:
+        return 'err other' if type(ex) is Exception else _exc(ex)
+    return 'ok ' + (';'.join(_res(e.pack) for _ in range(n)) or '-')
+
+
+def upload_all(elems, n):
+    """the same trajectory LIST (same element objects) uploaded n times: to a fresh TrajectoryMemory each time, except every
+    third upload which re-uses the previous memory object at another start address.  Returns the n results: bytes or the exception."""
+    from cflib.crazyflie.mem.trajectory_memory import TrajectoryMemory
+    out = []
+    mem = None
+    for k in range(n):
+        if mem is None or k % 3 != 2:
+            mem = TrajectoryMemory(id=k, type=0x12, size=4096, mem_handler=FakeMemHandler())
+            mem.trajectory = elems
+        addr = 0 if k % 3 != 2 else 512
+        before = len(mem.mem_handler.writes)
+        try:
+            ln = mem.write_data(None, start_addr=addr)
+            w = mem.mem_handler.writes[before:]
+            assert len(w) == 1 and w[0][0] == addr and ln == len(w[0][1]), (w, ln)
+            out.append(w[0][1])
+        except AssertionError:
+            raise
+        except Exception as e:
+            out.append(e)
+    return out
+
+
+def _res_of(v):
+    return _res(lambda: (_ for _ in ()).throw(v)) if isinstance(v, Exception) else (bytes(v).hex() or '-')
+
+
+def real_trajhist(specs, n):
+    try:
+        elems = [make_elem(sp) for sp in specs]
+    except Exception as ex:
+        return 'err other' if type(ex) is Exception else _exc(ex)
+    return 'ok ' + (';'.join(_res_of(v) for v in upload_all(elems, n)) or '-')
+
+
+def real_ledhist(ops):
+    """ops on ONE LEDDriverMemory: ('s', i, r, g, b, intensity|None) | ('i', i, v) | ('w',)"""
+    from cflib.crazyflie.mem.led_driver_memory import LEDDriverMemory
+    h = FakeMemHandler()
+    m = LEDDriverMemory(id=0, type=0x10, size=24, mem_handler=h)
+    out = []
+    for op in ops:
+        if op[0] == 's':
+            m.leds[op[1]].set(op[2], op[3], op[4], op[5])
+        elif op[0] == 'i':
+            m.leds[op[1]].intensity = op[2]
+        else:
+            n0 = len(h.writes)
+            out.append(_res(lambda: (m.write_data(None), h.writes[n0][1])[1]))
+    return 'ok ' + (';'.join(out) or '-')
+
+
+def ledop_txt(op):
+    if op[0] == 's':
+        return 's%d:%d:%d:%d:%s' % (op[1], op[2], op[3], op[4], '-' if op[5] is None else str(op[5]))
+    return 'i%d:%d' % (op[1], op[2]) if op[0] == 'i' else 'w'
+
+
+def real_ledthist(ops):
+    """ops on ONE LEDTimingsDriverMemory: ('a', time, r, g, b, leds, fade, rotate) | ('w',)"""
+    from cflib.crazyflie.mem.led_timings_driver_memory import LEDTimingsDriverMemory
+    h = FakeMemHandler()
+    m = LEDTimingsDriverMemory(id=0, type=0x17, size=2000, mem_handler=h)
+    out = []
+    for op in ops:
+        if op[0] == 'a':
+            m.add(op[1], {'r': op[2], 'g': op[3], 'b': op[4]}, op[5], bool(op[6]), op[7])
+        else:
+            n0 = len(h.writes)
+            out.append(_res(lambda: (m.write_data(None), h.writes[n0][1])[1]))
+    return 'ok ' + (';'.join(out) or '-')
+
+
+class LocStream:
+    """ONE Localization object with one callback, fed packet after packet"""
+
+    def __init__(self):
+        from cflib.crazyflie.localization import Localization
+        from cflib.utils.callbacks import Caller
+        self.loc = Localization.__new__(Localization)
+        self.loc.receivedLocationPacket = Caller()
+        self.got = []
+        self.loc.receivedLocationPacket.add_callback(self.got.append)
+
+    def feed(self, raw):
+        """the packets delivered to the callback for this one packet (exceptions propagate)"""
+        n0 = len(self.got)
+        self.loc._incoming(_Pk(raw))
+        return self.got[n0:]
+
+
+def canon_pk(got):
+    if not got:
+        return 'ok dropped'
+    assert len(got) == 1
+    pk = got[0]
+    d = pk.data
+    if d is None:
+        dec = 'none'
+    elif isinstance(d, bool):
+        dec = 'persist %d' % (1 if d else 0)
+    elif isinstance(d, dict) and 'basestation' in d:
+        dec = 'lh %d %s %s' % (d['basestation'], ';'.join(canon_f64(v) for v in d['x']), ';'.join(canon_f64(v) for v in d['y']))
+    elif isinstance(d, dict):
+        dec = 'ranges ' + (','.join('%d:%s' % (k, canon_num(d[k])) for k in sorted(d)) or '-')
+    else:
+        dec = 'other'
+    return 'ok %d %s %s' % (pk.type, bytes(pk.raw_data).hex() or '-', dec)
+
+
+def real_inchist(raws):
+    st = LocStream()
+    out = []
+    for raw in raws:
+        try:
+            out.append(canon_pk(st.feed(raw)))
+        except Exception as e:
+            out.append(_exc(e))
+    return ' | '.join(out)
+
+
 def real_bitop(op, a, b):
     import operator
     f = {'and': operator.and_, 'or': operator.or_, 'xor': operator.xor, 'shl': operator.lshift, 'shr': operator.rshift,
@@ -1131,6 +1295,66 @@ def gen_cases(ctx):
     for kind, raw in pk:
         add('inc', 'inc ' + (raw.hex() or '-'), lambda raw=raw: real_incoming(raw), {'op': 'Localization._incoming', 'data': raw.hex()},
             ('inc', raw), 'inc:' + kind, post=canon_model_incoming)
+    # ---- repeated use of ONE object: every call of a history, not only the first
+    def seg_spec(overflow=False, bad_len=False):
+        lens = [rng.choice([0, 1, 3, 7]) for _ in range(4)]
+        if bad_len:
+            lens[rng.randrange(4)] = rng.choice([2, 4, 5, 6, 8])
+        el = [[rng.uniform(-3, 3) for _ in range(n)] for n in lens]
+        if overflow:
+            k = rng.choice([i for i in range(4) if lens[i] and i < 3] or [0])
+            if not el[k]:
+                el[k] = [0.0]
+            el[k][rng.randrange(len(el[k]))] = rng.choice([1, -1]) * rng.uniform(32.8, 60)
+        return ('G', rng.choice([0.5, 1.0, 2.5, rng.uniform(0, 60)]), el[0], el[1], el[2], el[3])
+
+    def start_spec(overflow=False):
+        return ('S', coord() if not overflow else 40.0, rng.uniform(-3, 3), rng.uniform(-3, 3), rng.uniform(-3, 3))
+    for _ in range(400 if thorough else 90):
+        r = rng.random()
+        spec = start_spec(r < 0.1) if rng.random() < 0.25 else seg_spec(overflow=r < 0.3, bad_len=0.3 <= r < 0.38)
+        n = rng.choice([2, 2, 3, 5])
+        add('packhist', 'packhist %s %d' % (elem_txt(spec), n), lambda spec=spec, n=n: real_packhist(spec, n),
+            {'op': 'pack() x%d on one object' % n, 'elem': spec[0]}, ('packhist', repr(spec), n),
+            'packhist:' + spec[0] + (':raises' if r < 0.3 and spec[0] == 'G' else ''))
+    for _ in range(250 if thorough else 60):
+        r = rng.random()
+        specs = [start_spec()] + [seg_spec(overflow=(r < 0.25 and k == 1)) for k in range(rng.choice([1, 2, 4]))]
+        n = rng.choice([2, 3, 4])
+        add('trajhist', 'trajhist %d %s' % (n, '+'.join(elem_txt(sp) for sp in specs)), lambda specs=specs, n=n: real_trajhist(specs, n),
+            {'op': 'same trajectory list uploaded %d times' % n, 'elements': len(specs)}, ('trajhist', repr(specs), n),
+            'trajhist:' + ('raises' if r < 0.25 else 'ok'))
+    for _ in range(250 if thorough else 60):
+        ops = []
+        for _ in range(rng.randrange(2, 14)):
+            r = rng.random()
+            if r < 0.45:
+                ops.append(('s', rng.randrange(12), rng.randrange(256), rng.randrange(256), rng.randrange(256),
+                            rng.choice([None, None, 0, 100, 50, rng.randrange(101), 1000])))
+            elif r < 0.55:
+                ops.append(('i', rng.randrange(12), rng.choice([0, 1, 99, 100, rng.randrange(101)])))
+            else:
+                ops.append(('w',))
+        ops += [('w',), ('w',)]
+        add('ledhist', 'ledhist ' + ','.join(ledop_txt(o) for o in ops), lambda ops=ops: real_ledhist(ops),
+            {'op': 'one LEDDriverMemory: set/intensity/write history', 'n': len(ops)}, ('ledhist', repr(ops)), 'ledhist')
+    for _ in range(150 if thorough else 40):
+        ops = []
+        for _ in range(rng.randrange(1, 9)):
+            if rng.random() < 0.6:
+                ops.append(('a', rng.randrange(0, 300), rng.randrange(256), rng.randrange(256), rng.randrange(256), rng.randrange(16), rng.randrange(2), rng.randrange(8)))
+            else:
+                ops.append(('w',))
+        ops += [('w',), ('w',)]
+        line = 'ledthist ' + ','.join('a%d:%d:%d:%d:%d:%d:%d' % o[1:] if o[0] == 'a' else 'w' for o in ops)
+        add('ledthist', line, lambda ops=ops: real_ledthist(ops), {'op': 'one LEDTimingsDriverMemory: add/write history', 'n': len(ops)},
+            ('ledthist', repr(ops)), 'ledthist')
+    raws = [raw for _, raw in pk if raw]
+    for _ in range(200 if thorough else 50):
+        seq = [rng.choice(raws) for _ in range(rng.randrange(2, 9))]
+        add('inchist', 'inchist ' + ','.join(r.hex() for r in seq), lambda seq=seq: real_inchist(seq),
+            {'op': 'one Localization object, packet stream', 'n': len(seq)}, ('inchist', tuple(seq)), 'inchist',
+            post=lambda m: ' | '.join(canon_model_incoming(part) for part in m.split(' | ')))
     return cases
 
 
@@ -1166,6 +1390,14 @@ def corpus_cases():
                 leds = [tuple(l) for l in c['leds']]
                 leds = (leds * 12)[:12]
                 out.append(('led', 'led ' + ','.join('%d:%d:%d:%d' % l for l in leds), lambda leds=leds: real_led(leds), desc, key, 'corpus:led', None, None))
+            elif op == 'packhist':
+                spec = tuple(c['elem'])
+                out.append(('packhist', 'packhist %s %d' % (elem_txt(spec), c['n']), lambda spec=spec, n=c['n']: real_packhist(spec, n), desc, key,
+                            'corpus:packhist', None, None))
+            elif op == 'trajhist':
+                specs = [tuple(e) for e in c['elems']]
+                out.append(('trajhist', 'trajhist %d %s' % (c['n'], '+'.join(elem_txt(sp) for sp in specs)),
+                            lambda specs=specs, n=c['n']: real_trajhist(specs, n), desc, key, 'corpus:trajhist', None, None))
             else:
                 raise ValueError('unknown corpus op %r in %s' % (op, path))
     return out
@@ -1305,13 +1537,108 @@ def search(ctx):
             if -32768 <= e <= 32767:
                 ctx.witness('yaw-raise', 'in-range yaw raised', {'rad': a}, encoded=e)
 
+    # (3b) every serialisation of the same objects, not only the first: one trajectory list uploaded several times (to several
+    #      memories / again at another address), decoded the way the firmware reads it and compared with the user's coordinates
+    NVAL = {0: 0, 1: 1, 2: 3, 3: 7}
+
+    def fw_decode(data):
+        """[('S', [x, y, z, yaw]) | ('G', duration_ms, [xs, ys, zs, yaws])] as the firmware's compressed-trajectory reader sees it"""
+        out = [('S', list(struct.unpack_from('<hhhh', data, 0)))]
+        pos = 8
+        while pos < len(data):
+            types, dur = struct.unpack_from('<BH', data, pos)
+            pos += 3
+            dims = []
+            for dim in range(4):
+                k = NVAL[(types >> (2 * dim)) & 3]
+                dims.append(list(struct.unpack_from('<' + 'h' * k, data, pos)))     # struct.error when the data is missing
+                pos += 2 * k
+            out.append(('G', dur, dims))
+        return out
+
+    def traj_ok(specs, data):
+        """does `data` carry the trajectory `specs`: every value present and less than one unit from the coordinate"""
+        try:
+            dec = fw_decode(data)
+        except struct.error:
+            return False, 'segment header announces values that are not in the data'
+        if len(dec) != len(specs):
+            return False, 'element count %d != %d' % (len(dec), len(specs))
+        for sp, d in zip(specs, dec):
+            if sp[0] == 'S':
+                want = [Fraction(sp[1]) * 1000, Fraction(sp[2]) * 1000, Fraction(sp[3]) * 1000, Fraction(math.degrees(sp[4])) * 10]
+                if d[0] != 'S' or not all(abs(e - w) < 1 for e, w in zip(d[1], want)):
+                    return False, 'start point %s' % (d,)
+            else:
+                if d[0] != 'G' or abs(d[1] - Fraction(sp[1]) * 1000) >= 1:
+                    return False, 'segment duration %s' % (d,)
+                for dim in range(4):
+                    want = [Fraction(v) * 1000 for v in sp[2 + dim]] if dim < 3 else [Fraction(math.degrees(v)) * 10 for v in sp[5]]
+                    if len(d[2][dim]) != len(want) or not all(abs(e - w) < 1 for e, w in zip(d[2][dim], want)):
+                        return False, 'segment dimension %d: %s for %d coordinates' % (dim, d[2][dim], len(want))
+        return True, ''
+
+    def rnd_seg(bad=None):
+        lens = [rng.choice([1, 3, 7]), rng.choice([0, 1, 3, 7]), rng.choice([0, 1, 3, 7]), rng.choice([0, 1, 3])]
+        el = [[rng.uniform(-30, 30) for _ in range(k)] for k in lens[:3]] + [[rng.uniform(-3, 3) for _ in range(lens[3])]]
+        if bad is not None:
+            el[0][rng.randrange(len(el[0]))] = bad
+        return ('G', rng.choice([0.25, 1.0, 2.0, rng.uniform(0, 60)]), el[0], el[1], el[2], el[3])
+    for trial in range(120 if thorough else 30):
+        specs = [('S', rng.uniform(-30, 30), rng.uniform(-30, 30), rng.uniform(0, 3), rng.uniform(-3, 3))] + [rnd_seg() for _ in range(rng.choice([1, 2, 5]))]
+        elems = [make_elem(sp) for sp in specs]
+        for k, res in enumerate(upload_all(elems, 4)):
+            ok, why = (False, 'raised ' + repr(res)) if isinstance(res, Exception) else traj_ok(specs, res)
+            if not ok:
+                ctx.witness('trajectory-encode' if k == 0 else 'trajectory-reuse',
+                            'upload #%d of the same trajectory list does not carry the coordinates (%s)' % (k + 1, why),
+                            {'trajectory': [list(sp) for sp in specs], 'upload': k + 1}, got=(res.hex() if not isinstance(res, Exception) else repr(res))[:200])
+                break
+        # an out-of-range coordinate must raise on EVERY pack() of that object, and keep the upload from happening every time
+        bad = rng.choice([1, -1]) * rng.uniform(32.8, 70)
+        for spec in (rnd_seg(bad=bad), ('S', bad, 0.0, 0.0, 0.0)):
+            obj = make_elem(spec)
+            for k in range(3):
+                try:
+                    raw = bytes(obj.pack())
+                    ctx.witness('overflow-raise' if k == 0 else 'overflow-reuse', 'pack() #%d of an object with an out-of-range coordinate did not raise' % (k + 1),
+                                {'element': list(spec), 'call': k + 1}, got=raw.hex()[:120])
+                    break
+                except struct.error:
+                    pass
+            res = upload_all([make_elem(specs[0]), make_elem(spec)] if spec[0] == 'G' else [make_elem(spec)], 3)
+            for k, r in enumerate(res):
+                if not isinstance(r, struct.error):
+                    ctx.witness('overflow-raise' if k == 0 else 'overflow-reuse', 'upload #%d of a trajectory with an out-of-range coordinate did not raise' % (k + 1),
+                                {'element': list(spec), 'upload': k + 1}, got=(r.hex() if isinstance(r, bytes) else repr(r))[:120])
+                    break
+
     # (4) LED RGB565, all 256 x 101 (level, intensity) pairs on all channels
     prev = {}
     table = {}
     pairs = [(c, i) for i in range(101) for c in range(256)]
+    from cflib.crazyflie.mem.led_driver_memory import LEDDriverMemory
+    ring_h = FakeMemHandler()
+    ring = LEDDriverMemory(id=0, type=0x10, size=24, mem_handler=ring_h)      # ONE ring object for all writes
+
+    def ring_write(leds):
+        for led, (r_, g_, b_, i_) in zip(ring.leds, leds):
+            led.set(r_, g_, b_)
+            led.intensity = i_
+        n0 = len(ring_h.writes)
+        try:
+            ring.write_data(None)
+            return 'ok ' + ring_h.writes[n0][1].hex()
+        except Exception as e:
+            return _exc(e)
     for k in range(0, len(pairs), 12):
         chunk = pairs[k:k + 12] + [(0, 0)] * (12 - len(pairs[k:k + 12]))
-        r = real_led([(c, c, c, i) for c, i in chunk])
+        r = ring_write([(c, c, c, i) for c, i in chunk])
+        if k % 600 == 0:
+            n0 = len(ring_h.writes)
+            ring.write_data(None)
+            if 'ok ' + ring_h.writes[n0][1].hex() != r:
+                ctx.witness('led-reuse', 'writing the unchanged LED ring a second time sends different data', {'leds': chunk}, got=ring_h.writes[n0][1].hex(), first=r)
         if not r.startswith('ok '):
             ctx.witness('led-raises', 'LED write_data raised for in-range colours', {'leds': chunk}, got=r)
             continue
@@ -1330,18 +1657,26 @@ def search(ctx):
             ctx.witness('led-monotone-intensity', 'RGB565 channel decreases when the intensity increases', {'level': c, 'intensity': i}, got=f)
     for _ in range(100):       # channels are independent: a mixed colour is the combination of the single-channel values
         r8, g8, b8, i = rng.randrange(256), rng.randrange(256), rng.randrange(256), rng.randrange(101)
-        raw = bytes.fromhex(real_led([(r8, g8, b8, i)] * 12)[3:])
+        raw = bytes.fromhex(ring_write([(r8, g8, b8, i)] * 12)[3:])
         w = (raw[0] << 8) | raw[1]
         want = (table[(r8, i)][0], table[(g8, i)][1], table[(b8, i)][2])
         if (w >> 11, (w >> 5) & 63, w & 31) != want or len(raw) != 24:
             ctx.witness('led-mix', 'mixed colour is not the combination of its channels', {'rgb': [r8, g8, b8], 'intensity': i}, got=w, want=want)
     # the timings driver (no intensity) must satisfy the same clauses on its own
     ttab = {}
-    for c in range(256):
-        rt = real_ledt([(1, c, c, c, 0, 0, 0)])
-        raw = bytes.fromhex(rt[3:]) if rt.startswith('ok ') else b''
-        if len(raw) != 8 or raw[0] != 1:
-            ctx.witness('ledt-raises', 'LED timings write_data did not produce one entry + terminator', {'level': c}, got=rt)
+    seqops = [('a', 1, c, c, c, 0, 0, 0) for c in range(256)] + [('w',), ('w',)]       # ONE sequence object, written twice
+    rt = real_ledthist(seqops)
+    writes = rt[3:].split(';') if rt.startswith('ok ') else []
+    if len(writes) != 2 or writes[0] != writes[1]:
+        ctx.witness('ledt-reuse', 'writing the unchanged LED timing sequence a second time sends different data', {'timings': 256}, got=rt[:200])
+    raw_all = bytes.fromhex(writes[0]) if writes and not writes[0].startswith('E:') else b''
+    if len(raw_all) != 4 * 256 + 4 or raw_all[-4:] != bytes(4):
+        ctx.witness('ledt-raises', 'LED timings write_data did not produce one entry per timing + terminator', {'timings': 256}, got=rt[:200])
+        raw_all = b''
+    for c in range(256 if raw_all else 0):
+        raw = raw_all[4 * c:4 * c + 4]
+        if raw[0] != 1:
+            ctx.witness('ledt-raises', 'LED timings entry has the wrong time byte', {'level': c}, got=raw.hex())
             continue
         w = (raw[1] << 8) | raw[2]
         ttab[c] = (w >> 11, (w >> 5) & 63, w & 31)
@@ -1370,13 +1705,10 @@ def search(ctx):
     from cflib.crazyflie.localization import Localization
     from cflib.utils.callbacks import Caller
 
+    stream = LocStream()          # ONE Localization object and callback for the whole packet stream
+
     def decode(raw):
-        loc = Localization.__new__(Localization)
-        loc.receivedLocationPacket = Caller()
-        got = []
-        loc.receivedLocationPacket.add_callback(got.append)
-        loc._incoming(_Pk(raw))
-        return got
+        return stream.feed(raw)
     for _ in range(1500 if thorough else 300):
         n = rng.choice([0, 1, 2, 3, 5, 6, 12, 40])
         ids = rng.sample(range(256), n)
